@@ -269,11 +269,16 @@ Fixpoint t_roots (g : graph) (roots : list nat) (st : tstate) : tstate * bool :=
       if brk then (st1, true) else t_roots g rest st1
   end.
 
-Definition tarjan (g : graph) : list nat * nat :=
+Definition tarjan_run (g : graph) : tstate * bool :=
   let n := length g in
-  let st0 := mkT (repeat false n) (repeat 0 n) [true] [] n 0 0 in
-  let '(st, brk) := t_roots g (seq 0 n) st0 in
+  t_roots g (seq 0 n) (mkT (repeat false n) (repeat 0 n) [true] [] n 0 0).
+
+Definition tarjan (g : graph) : list nat * nat :=
+  let '(st, brk) := tarjan_run g in
   (t_high st, if brk then S (t_noc st) else t_noc st).
+
+(** whether the early exit was taken (coverage statistics of the driver) *)
+Definition tarjan_early (g : graph) : bool := snd (tarjan_run g).
 
 (** * Renumbering by size (Sccs::sort_by_size / par_sort_by_size)
 
